@@ -189,6 +189,10 @@ def run_case(spec):
     sch.hook = hook
     sch.run(6000, until=lambda: ds.done and dr.done and not pending_late)
     end = sch.drain(400.0, 30000, until=lambda: ds.done and dr.done and not pending_late)
+    if end == "steps":
+        # the step cap, not the virtual-time bound, ended the drain: no verdict on this case
+        world.finish()
+        return {"inconclusive": "step cap reached in the final drain", "violations": []}
     hook()
     sch.hook = None
     t_done = max([t_finish.get(w, r.seconds()) - t_start[w] for w in "SR"])
